@@ -34,6 +34,11 @@
     c07 rec fits <fields> <fields>  → typable | untypable   (`Typing.recLitFits`: record literal vs record type)
     c07 rec field <fields> <f> <ty> → typable | untypable   (`Typing.recFieldFits`)
     c07 lit <n> <stmt,…>            → typable | untypable   (`Typing.ltypable`)
+    c07 cyc <kinds> <edges>         → comps=<a,b;c;…> out=<ord:a,b,…|rec:n|ctx:n> valid=<0|1> rule=<0|1>
+        reference graph (`c`/`f`/`x`/`o` per node id; edges `k:t,t;k:;…` or `-`): `tarjan` and
+        `find_compilation_order` as written (Model/Tarjan.lean), the verified certificate checker on
+        the components, and the documented rule `TcValueCycle.ruleRejects` (a constant on a cycle)
+    c07 cyccert <kinds> <edges> <comps> → valid=<0|1>   (`Tarjan.validOrder` on components computed by the real code)
 -/
 import Driver.Util
 import RotoV.Model.Typing
@@ -41,6 +46,7 @@ import RotoV.Model.UnifyTc
 import RotoV.Model.TcRules
 import RotoV.Model.TcInfer
 import RotoV.Model.TcInferSem
+import RotoV.Model.TcValueCycle
 
 namespace Driver.C07
 open RotoV RotoV.Typing
@@ -484,8 +490,58 @@ def parseFieldsSpec (s : String) : Option (List (Nat × Ty)) :=
 
 def yn (b : Bool) : String := if b then "typable" else "untypable"
 
+def cycKind : Char → Option RotoV.Tarjan.Kind
+  | 'c' => some .const
+  | 'f' => some .func
+  | 'x' => some .ctx
+  | 'o' => some .other
+  | _ => none
+
+def cycNats (s : String) : Option (List Nat) :=
+  if s.isEmpty then some [] else (s.splitOn ",").mapM String.toNat?
+
+def cycEdges (s : String) : Option (List (Nat × List Nat)) :=
+  if s == "-" then some [] else
+  ((s.splitOn ";").filter (· ≠ "")).mapM fun e => match e.splitOn ":" with
+    | [k, ts] => do pure (← k.toNat?, ← cycNats ts)
+    | _ => none
+
+/-- `c07 cyc <kinds> <edges>`: value_cycle.rs as written + the documented rule -/
+def handleCyc (kinds edges : String) : String :=
+  match kinds.toList.mapM cycKind, cycEdges edges with
+  | some ks, some es =>
+    let g : RotoV.Tarjan.Graph := ⟨es, fun n => ks.getD n .other⟩
+    let showNats := fun (l : List Nat) => ",".intercalate (l.map toString)
+    let showFail : RotoV.Tarjan.Fail → String := fun | .panic => "panic" | .outOfFuel => "fuel"
+    let comps := RotoV.Tarjan.tarjan g
+    let compsS := match comps with
+      | .ok cs => ";".intercalate (cs.map showNats)
+      | .error e => showFail e
+    let validS := match comps with
+      | .ok cs => if RotoV.Tarjan.validOrder g cs then "1" else "0"
+      | .error _ => "0"
+    let outS := match RotoV.Tarjan.findCompilationOrder g with
+      | .ok (.order o) => "ord:" ++ showNats o
+      | .ok (.recursive c) => s!"rec:{c}"
+      | .ok (.usesContext c) => s!"ctx:{c}"
+      | .error e => showFail e
+    let ruleS := if RotoV.TcValueCycle.ruleRejects g then "1" else "0"
+    s!"comps={compsS} out={outS} valid={validS} rule={ruleS}"
+  | _, _ => "bad-op"
+
+/-- `c07 cyccert <kinds> <edges> <comps>`: the verified certificate checker on components computed elsewhere -/
+def handleCycCert (kinds edges comps : String) : String :=
+  match kinds.toList.mapM cycKind, cycEdges edges,
+        (if comps == "-" then some [] else (comps.splitOn ";").mapM cycNats) with
+  | some ks, some es, some cs =>
+    let g : RotoV.Tarjan.Graph := ⟨es, fun n => ks.getD n .other⟩
+    if RotoV.Tarjan.validOrder g cs then "valid=1" else "valid=0"
+  | _, _, _ => "bad-op"
+
 def handle (args : List String) : String :=
   match args with
+  | ["cyc", kinds, edges] => handleCyc kinds edges
+  | ["cyccert", kinds, edges, comps] => handleCycCert kinds edges comps
   | ["compat", pairs] =>
     -- every listed pair of (possibly flexible) types must be compatible (`Typing.compat`)
     if pairs == "never" then "untypable" else
